@@ -3,46 +3,45 @@
    (REAL constants): the peer-name qname (34..65 bytes, chosen at start), one TXT record per address
    (name + 10 bytes of fixed fields + 1 length byte + the character-string), addresses whose TXT string exceeds 255
    bytes or is not ASCII are skipped, a packet is closed after RecsPerPacket records.  Addresses are abstracted to
-   [len : length of "dnsaddr=<addr>/p2p/<peer>", kind : "plain" | "quoted" (contains a space: the string is wrapped
-   in quotes) | "nonascii"].  The decoder reads the character-string by its length byte.
+   [len : length of "dnsaddr=<addr>/p2p/<peer>", kind : "plain" | "quoted" (contains a space) | "nonascii"].  The decoder reads the character-string by its length byte.
    Properties: PacketFits (every packet <= 9000 bytes), Exact (decoded = advertised addresses with len <= 255 and
    ASCII, in order).
-   Constants as canaries: RecBudget = 300 and the stale length byte are the code before the C55 repair. *)
+   Constants as canaries: RecBudget = 300 / HdrBudget = 100 and QuoteBug are the code before the C55 repairs. *)
 EXTENDS Naturals, Sequences, TLC
 CONSTANTS Lens,            \* TXT string lengths explored
           Kinds,           \* address kinds explored
           MaxAddrs,
-          RecBudget,       \* MAX_TXT_RECORD_SIZE: the per-record size the code budgets for  (repaired: 333, before: 300)
-          StaleLenByte,    \* TRUE: length byte = unquoted length although the string was quoted (before the repair)
+          RecBudget,       \* MAX_TXT_RECORD_SIZE: the per-record size the code budgets for  (repaired: 331, before: 300)
+          HdrBudget,       \* packet header allowance (repaired: 104, before: 100)
+          QuoteBug,        \* TRUE (before the repair): a string with a space is wrapped in quotes while the length byte
+                           \* still announces the unquoted length
           Truncate         \* canary: an oversize string is cut to 255 bytes instead of being skipped
-VARIABLES name, n, recs, cur, packets, adv, dec, poisoned
-vars == <<name, n, recs, cur, packets, adv, dec, poisoned>>
+VARIABLES name, n, recs, cur, worst, mismatch, poisoned   \* worst: size of the largest closed packet; monitors instead of histories
+vars == <<name, n, recs, cur, worst, mismatch, poisoned>>
 MaxTxt == 255
 MaxPacket == 9000 - 68
-RecsPerPacket == (MaxPacket - 100) \div RecBudget
+RecsPerPacket == (MaxPacket - HdrBudget) \div RecBudget
 Header == 12 + 17 + 4 + 4 + 2          \* DNS header, question-less answer: qname(_p2p._udp.local) type class ttl rdlength
-Init == /\ name \in {34, 65} /\ n = 0 /\ recs = 0 /\ cur = 0 /\ packets = <<>> /\ adv = <<>> /\ dec = <<>> /\ poisoned = FALSE
-Close == [size |-> Header + name + cur, recs |-> recs]
+Init == /\ name \in {34, 65} /\ n = 0 /\ recs = 0 /\ cur = 0 /\ worst = 0 /\ mismatch = FALSE /\ poisoned = FALSE
+Fit(len, kind) == len <= MaxTxt /\ kind # "nonascii"
 Add(len, kind) ==
   /\ n < MaxAddrs /\ n' = n + 1 /\ name' = name
-  /\ adv' = Append(adv, [len |-> len, kind |-> kind, id |-> n + 1])
   /\ LET skip == kind = "nonascii" \/ (len > MaxTxt /\ ~Truncate)
          wlen == IF len > MaxTxt THEN MaxTxt ELSE len
-         body == IF kind = "quoted" THEN wlen + 2 ELSE wlen           \* append_character_string
+         body == IF kind = "quoted" /\ QuoteBug THEN wlen + 2 ELSE wlen   \* append_character_string
          rsize == name + 10 + 1 + body
-         readable == kind = "plain" \/ ~StaleLenByte                  \* length byte matches the string
+         readable == kind = "plain" \/ ~QuoteBug                      \* length byte matches the string
          nrecs == recs + 1
-     IN IF skip THEN UNCHANGED <<recs, cur, packets, dec, poisoned>>
-        ELSE /\ dec' = IF readable /\ len <= MaxTxt THEN Append(dec, n + 1) ELSE dec
-             /\ poisoned' = (poisoned \/ ~readable \/ len > MaxTxt)
-             /\ IF nrecs = RecsPerPacket
-                THEN packets' = Append(packets, [size |-> Header + name + cur + rsize, recs |-> nrecs]) /\ recs' = 0 /\ cur' = 0
-                ELSE recs' = nrecs /\ cur' = cur + rsize /\ packets' = packets
+         decoded == ~skip /\ readable /\ len <= MaxTxt                 \* this address comes out of the decoder unchanged
+     IN /\ mismatch' = (mismatch \/ (decoded # Fit(len, kind)))
+        /\ IF skip THEN UNCHANGED <<recs, cur, worst, poisoned>>
+           ELSE /\ poisoned' = (poisoned \/ ~readable \/ len > MaxTxt)      \* a record the decoder cannot read / a foreign string
+                /\ IF nrecs = RecsPerPacket
+                   THEN /\ worst' = (IF Header + name + cur + rsize > worst THEN Header + name + cur + rsize ELSE worst)
+                        /\ recs' = 0 /\ cur' = 0
+                   ELSE recs' = nrecs /\ cur' = cur + rsize /\ worst' = worst
 Next == \E len \in Lens, kind \in Kinds : Add(len, kind)
 Spec == Init /\ [][Next]_vars
-PacketFits == (\A i \in 1..Len(packets) : packets[i].size <= 9000) /\ Header + name + cur <= 9000
-Fit(a) == a.len <= MaxTxt /\ a.kind # "nonascii"
-RECURSIVE Ids(_)
-Ids(s) == IF s = <<>> THEN <<>> ELSE (IF Fit(Head(s)) THEN <<Head(s).id>> ELSE <<>>) \o Ids(Tail(s))
-Exact == ~poisoned /\ dec = Ids(adv)
+PacketFits == worst <= 9000 /\ Header + name + cur <= 9000
+Exact == ~poisoned /\ ~mismatch
 ====
